@@ -260,7 +260,10 @@ func (d *c27Driver) waitWriter(budget time.Duration) string {
 
 func (d *c27Driver) verdict(v int) {
 	if d.inflight == nil {
-		d.anomaly("verdict with nothing in flight")
+		// after close was requested a script cannot know whether the writer took another batch
+		if !d.closeStarted {
+			d.anomaly("verdict with nothing in flight")
+		}
 		return
 	}
 	ids := d.inflight.ids
@@ -295,6 +298,17 @@ func (d *c27Driver) startClose() {
 	d.closeStarted = true
 	d.ev(c27Event{K: "close"})
 	go func() { d.c.close(); close(d.closeDone) }()
+	// the event order of the trace must be the real order: wait until done is really closed
+	deadline := time.Now().Add(2 * time.Second)
+	for time.Now().Before(deadline) {
+		select {
+		case <-d.c.done:
+			return
+		default:
+			runtime.Gosched()
+		}
+	}
+	d.anomaly("close() did not close the done channel within 2s")
 }
 
 func (d *c27Driver) submit(op c27Op) {
